@@ -294,6 +294,19 @@ def main(ctx):
                         ctx.count('register-fed-by-wider-read-port', 'added')
                     except pyrtl.PyrtlError:
                         pass       # read-port limit of the memory reached
+        if k % 2 == 0:
+            # slices with a step (every other bit, reversed, a stepped window): selects whose bit list is not a contiguous run
+            src3_ = sorted((w for w in d.block.wirevector_subset((Input, Register)) if len(w) >= 3), key=lambda w: w.name)
+            if src3_:
+                with pyrtl.set_working_block(d.block, no_sanity_check=True):
+                    w3_ = rng.choice(src3_)
+                    sl_ = rng.choice([slice(None, None, 2), slice(None, None, -1), slice(1, None, 2), slice(None, None, 3),
+                                      slice(len(w3_) - 1, 0, -2)])
+                    picked_ = w3_[sl_]
+                    os_ = Output(len(picked_), 'verif_stepped')
+                    os_ <<= picked_
+                    d.outputs.append(os_)
+                ctx.count('stepped-slice', 'added')
         steps = gen.rand_stimulus(rng, d, rng.choice([3, 5]))
         regmap, memmap, _ = gen.rand_init(rng, d, with_default=False)
         if k % 2 == 0:
